@@ -312,6 +312,36 @@ def runScan (kv : KV) : String :=
   | "timeout" => " OK S=SCAN_TIMEOUT sane=1"
   | _ => " UNMODELLED"
 
+/-- litseq: `steps=<m>/<lit>+<lit>,…`, lit = `<value><n|k|m>` (integer literal with suffix none/KB/MB) or `f` (a float literal, always
+    accepted). Specification: every compilation stands on its own — a source is rejected iff one of ITS literals is out of range. -/
+def runLitSeq (kv : KV) : String :=
+  let steps := ((getD kv "steps" "").splitOn ",").filter (· ≠ "")
+  let litErr (l : String) : Option Err :=
+    if l == "f" then none else
+    let cs := l.toList
+    let suf := match cs.getLast? with | some 'k' => Suffix.kb | some 'm' => Suffix.mb | _ => Suffix.none
+    match intLiteral Guards.spec ((String.ofList cs.dropLast).toNat?.getD 0) suf with
+    | .ok _ => none
+    | .error e => some e
+  let close (cur : Option (Bool × Nat)) : String :=
+    match cur with | none => "" | some (true, _) => " RX" | some (false, k) => s!" R{k}"
+  let (out, cur) := steps.foldl (fun (acc : String × Option (Bool × Nat)) st =>
+      let (out, cur) := acc
+      let (mode, body) := match st.splitOn "/" with | [m, b] => (m, b) | _ => ("n", "")
+      let lits := (body.splitOn "+").filter (· ≠ "")
+      let needNew := mode == "n" || (match cur with | none => true | some (e, _) => e)
+      let out := if needNew then out ++ close cur else out
+      let cnt := if needNew then 0 else (match cur with | some (_, k) => k | none => 0)
+      match lits.findSome? litErr with
+      | none => (out ++ " OK", some (false, cnt + 1))
+      | some e => (out ++ s!" CERR:{errName e}", some (true, cnt))) ("", none)
+  out ++ close cur ++ " sane=1"
+
+/-- cases with `nest=`: the configured limits as read back after the nested `yr_initialize()`/`yr_finalize()` — unchanged -/
+def cfgPrefix (kv : KV) : String :=
+  if (get? kv "nest").isNone then "" else
+  String.join (["ss", "mspr", "mmd", "chunk"].filterMap fun k => (get? kv k).map fun v => s!" cfg.{k}={v}")
+
 def handle (line : String) : String :=
   match Driver.toks line with
   | id :: cmd :: rest =>
@@ -351,8 +381,9 @@ def handle (line : String) : String :=
       | "ml" => runMl kv
       | "fib" => runFib kv
       | "re" => runRe kv
-      | "compile" => runCompile kv
-      | "scan" => runScan kv
+      | "compile" => cfgPrefix kv ++ runCompile kv
+      | "scan" => cfgPrefix kv ++ runScan kv
+      | "litseq" => runLitSeq kv
       | _ => " UNMODELLED"
     id ++ body
   | _ => ""
